@@ -7,7 +7,7 @@ from harness import core
 
 ID = 'C10'
 TITLE = 'Removing rows leaves no references to them'
-PROPS = ['Props/C10']
+PROPS = ['Props/C10', 'Props/C10_code']
 RULE = ('(L1) random op sequences (set/unset/growto/copy_from_column/clear; right-type, wrong-type, out-of-range, '
         'string-hack values, RefList cells holding the same target id more than once: adjacent, non-adjacent, all equal) '
         'on REAL ReferenceColumn/ReferenceListColumn objects vs the model, and (L1b) get_updates_for_removed_target_rows '
@@ -48,7 +48,7 @@ LEVEL_NOTE = ('Trusted: Coq kernel, the hand-written model (validated differenti
 
 logging.disable(logging.CRITICAL)
 
-IMPORTS = ['Grist.Model.RefIndex']
+IMPORTS = ['Grist.Model.RefIndex', 'Grist.Model.K4Support', 'GristGen.K4_gen', 'Grist.Proofs.K4_bridge']
 # Which model of clear the correspondence uses: 'true' = BaseReferenceColumn.clear also clears the relation (the code
 # since /repo commit 474dc3f; Model `run`), 'false' = the old BaseColumn.clear that kept it (Model `run_old`, finding
 # C10-clear-keeps-reverse-index, now 'fixed'; only the regression Examples of Props/C10.v still speak about it).
@@ -87,7 +87,8 @@ def ops_cases(ctx):
     ctx.count(('ops', kind, repr(ops)), nontrivial=nontrivial, kind='ops:%s:%s' % (kind, status),
               sample={'kind': kind, 'ops': repr(ops)[:300]} if i < 2 else None)
   check = ('fun c => match c with (k, tbl, ops, expected) => '
-           'res_eqb col_eqb (run_from (hack_of tbl) %s (col_new k) ops) expected end' % CLEAR_FIXED)
+           'res_eqb col_eqb (run_from (hack_of tbl) %s (col_new k) ops) expected && '
+           'res_eqb col_eqb (gen_run (hack_of tbl) k ops) expected end' % CLEAR_FIXED)     # hand model AND generated code
   bad = ctx.run_cases('ops', IMPORTS, check, cases, shard=100)
   for i in bad[:5]:
     ctx.broken('correspondence:RefIndex.run differs from the real column on an op sequence',
@@ -132,7 +133,9 @@ def updates_cases(ctx):
               kind='updates:%s:%s' % (kind, 'repeated-id-removed' if repeated else ('hit' if ups else 'nohit')))
   check = ('fun c => match c with (k, tbl, ops, targets, expected) => '
            'res_eqb (list_eqb (fun x y => Nat.eqb (fst x) (fst y) && cell_eqb (snd x) (snd y))) '
-           '(bind (run_from (hack_of tbl) %s (col_new k) ops) (fun col => get_updates col targets)) expected end'
+           '(bind (run_from (hack_of tbl) %s (col_new k) ops) (fun col => get_updates col targets)) expected && '
+           'res_eqb (list_eqb (fun x y => Nat.eqb (fst x) (fst y) && cell_eqb (snd x) (snd y))) '
+           '(bind (gen_run (hack_of tbl) k ops) (fun col => gen_get_updates col targets)) expected end'
            % CLEAR_FIXED)
   bad = ctx.run_cases('updates', IMPORTS, check, cases, shard=100)
   for i in bad[:5]:
@@ -398,7 +401,15 @@ def passes(ctx):
   return ctx._c10_passes
 
 
+def regenerate(ctx):
+  from harness import k4diff
+  k4diff.regenerate(ctx)
+
+
 def correspond(ctx):
+  from harness import k4diff
+  k4diff.relation_cases(ctx)
+  k4diff.cleanup_condition_cases(ctx)
   ops_cases(ctx)
   updates_cases(ctx)
   ps = passes(ctx)
